@@ -1781,12 +1781,44 @@ class Fn:
             return self.expr_stmt(init, after_init)
         return after_init()
 
+    def gen_selfrec(self, body):
+        """C09 ("self_recursive": {"F": "<fuel : nat>"}): a pure static function whose body is ONE return statement, a tree of
+        conditional operators whose leaves are either a call of F itself or an expression without such a call (C++11 constexpr
+        recursion, e.g. MemPoolConst::GetBlockAlignment):
+            Fixpoint F_rec (fuel : nat) params : outcome T := match fuel with O => Fuel | S fuel => <tree> end
+            Definition F params := F_rec <fuel> params.
+        Leaves are `F_rec fuel args` / `Ok e`; running out of fuel is the visible outcome Fuel, never a default value."""
+        sts = [x for x in body.get('inner', []) if x.get('kind') != 'NullStmt']
+        if len(sts) != 1 or sts[0].get('kind') != 'ReturnStmt' or not sts[0].get('inner') or not self.is_static:
+            raise TranslationError('self_recursive: %s is not a static function with a single return statement' % self.name)
+        self.nonsimple = True      # a self call anywhere else (inside an expression) is a translation error, see call()
+        rec = self.out + '_rec'
+        def walk(n):
+            n = skip_wrappers(n)
+            if n.get('kind') == 'ConditionalOperator':
+                c, a, b = n['inner']
+                return f'(if {self.e(c)} then {walk(a)} else {walk(b)})'
+            if n.get('kind') == 'CallExpr' and self.callee_name(n)[0] == self.name:
+                args = n['inner'][1:]
+                if len(args) != len(self.params) or any(skip_wrappers(a).get('kind') == 'CXXDefaultArgExpr' for a in args):
+                    raise TranslationError('self_recursive: recursive call of %s must pass every argument explicitly' % self.name)
+                return '(' + ' '.join([rec, 'fuel'] + [self.e(a) for a in args]) + ')'
+            return f'(Ok {self.e(n)})'
+        txt = walk(sts[0]['inner'][0])
+        params = ' '.join(f'({n} : {t})' for n, t in self.all_params())
+        names = ' '.join(n for n, _ in self.all_params())
+        fix = (f'Fixpoint {rec} (fuel : nat) {params} {{struct fuel}} : outcome {coq_ty(self.ret_ct)} :=\n'
+               f'match fuel with\n| O => Fuel\n| S fuel =>\n{txt}\nend.')
+        return fix + f'\n\nDefinition {self.out} {params} :=\n{rec} {self.ctx.cfg["self_recursive"][self.name]} {names}.'
+
     # ---------------- whole function ----------------
     def gen(self):
         body = [x for x in self.d['inner'] if x['kind'] == 'CompoundStmt']
         if not body:
             raise TranslationError('no body for ' + self.name)
         body = body[0]
+        if self.name in self.ctx.cfg.get('self_recursive', {}):   # C09
+            return self.gen_selfrec(body)
         # C09: "prefix": {"F": {"until": "local", "return": ["a","b"]}} - translate only the statements before the
         # declaration of `local` and return the tuple of the named locals (the rest of F is modelled elsewhere)
         pf = self.ctx.cfg.get('prefix', {}).get(self.name)
